@@ -38,3 +38,45 @@ Print Assumptions C12_tree_inv_step.
 Print Assumptions C12_tree_inv_reachable.
 Print Assumptions C12_navigation_agrees_reachable.
 Print Assumptions C12_tree_inv_checkable.
+
+(** ** [Element::normalize] (fix 371cd5b; model: Model/DomNormalize.v, tied by the op [NZ] of the dom correspondence)
+
+    The code performs [normalize] only through [append_data] on a Text node and [remove_child] on the
+    element, so the model is a derived program over [step] and the world after it is reachable by a
+    plain history ([C12_normalize_is_history]); [run_n] runs histories over [nop] = an operation or
+    [Normalize merged r].  Every theorem above therefore holds for histories with [normalize] calls. *)
+From XmlRs Require Import Model.DomNormalize Proofs.DomNormalizeHist Proofs.DomNormalizeC12.
+
+Theorem C12_normalize_is_history : forall merged fuel w r,
+  exists ops, normalize_run merged fuel w r = run w ops /\ Forall norm_op ops.
+Proof. exact normalize_is_history. Qed.
+
+Theorem C12_run_n_history : forall nops w,
+  exists ops, run_n w nops = run w ops /\ Forall (fun o => norm_op o \/ In (Op o) nops) ops.
+Proof. exact run_n_history. Qed.
+
+Theorem C12_tree_inv_reachable_with_normalize : forall init nops, WInv init -> WInv (run_n init nops).
+Proof. exact tree_inv_reachable_with_normalize. Qed.
+
+Theorem C12_tree_inv_normalize : forall merged w r, WInv w -> WInv (fst (normalize merged w r)).
+Proof. exact tree_inv_normalize. Qed.
+
+Theorem C12_navigation_agrees_reachable_with_normalize :
+  forall init nops k s, WInv init -> doc_at (run_n init nops) k = Some s -> NavAgree s.
+Proof. exact navigation_agrees_reachable_with_normalize. Qed.
+
+(** non-trivial instance: on <r><a x="1">t</a><b/></r>, t.split_text(0), Text nodes "]]" and ">" appended to a,
+    r.normalize() (raw view), r.normalize() (merged view): a = ["" "t" "]]" ">"] becomes ["t]]" ">"] *)
+Example C12_normalize_example :
+  (children_of (store0 nz_before) 3, map (data_of (store0 nz_before)) [6; 8; 9; 10]) = ([6; 8; 9; 10], [[]; [116]; [93; 93]; [62]])
+  /\ (children_of (store0 nz_final) 3, map (data_of (store0 nz_final)) [6; 8; 9; 10], map (parent_of (store0 nz_final)) [6; 8; 9; 10])
+     = ([6; 10], [[116; 93; 93]; [116]; [93; 93]; [62]], [Some 3; None; None; Some 3])
+  /\ WInv nz_final /\ NavAgree (store0 nz_final).
+Proof. exact nz_example. Qed.
+
+Print Assumptions C12_normalize_is_history.
+Print Assumptions C12_run_n_history.
+Print Assumptions C12_tree_inv_reachable_with_normalize.
+Print Assumptions C12_tree_inv_normalize.
+Print Assumptions C12_navigation_agrees_reachable_with_normalize.
+Print Assumptions C12_normalize_example.
